@@ -10,4 +10,20 @@ PROPS = {
         level_note="Trusts the Go runtime's bounds checks to turn an out-of-range access into a panic, and the reference model (a slice and an integer). Negative length arguments are outside the domain.",
         assumptions=["length arguments are non-negative (every caller passes a widened unsigned wire length)"],
     ),
+    "C03": dict(
+        test="TestC03", level="exploration",
+        quick=dict(checks=48000, shards=8, budget_s=300),
+        thorough=dict(checks=2400000, shards=16, budget_s=3000),
+        technique="property-based round trip (rapid): structured template/record generator -> wire bytes -> decoder, compared with an independent RFC 7011 reference interpretation",
+        level_text="Generated templates and records are serialised by the harness's own RFC 7011 builder and decoded by vflow; every header field, record count, order, element id, enterprise number and value must equal the reference interpretation of the same octets. Label histogram in the evidence shows coverage of variable-length prefixes, scope fields, enterprise elements, padding and short records.",
+        level_note="Trusts the harness's builder and reference interpretation (wire/). Domain restrictions: shortest record >= 1 octet, variable-length marker only on string/octetArray, fixed-size types never longer than their natural size, padding shorter than the shortest record.",
+    ),
+    "C06": dict(
+        test="TestC06", level="exploration",
+        quick=dict(checks=48000, shards=8, budget_s=300),
+        thorough=dict(checks=2400000, shards=16, budget_s=3000),
+        technique="property-based round trip (rapid): structured template/record generator -> wire bytes -> decoder, compared with an independent RFC 3954 reference interpretation",
+        level_text="Same construction as C03 over NetFlow v9 framing: plain and options templates (scope/option lengths in octets), every field type and length, padding; decoded header and records must equal the reference interpretation.",
+        level_note="Trusts the harness's builder and reference interpretation (wire/). Domain restrictions: shortest record >= 1 octet, padding shorter than the record and at most 3 octets, fixed-size types never longer than their natural size.",
+    ),
 }
